@@ -280,6 +280,24 @@ class SymbolTable(dict):
         name_parts = self.format_lookup_name(key)  # pylint: disable=assignment-from-no-return
         super().__setitem__(name_parts, value.clone())
 
+    def __delitem__(self, key):
+        super().__delitem__(self.format_lookup_name(key))
+
+    def pop(self, key, *args):
+        """
+        Remove a symbol's entry from the table (without recursive lookup)
+        and return its attributes
+
+        Parameters
+        ----------
+        key : `str`
+            Name of the type or symbol
+        default : optional
+            Return this value if :attr:`key` is not found in the table,
+            otherwise a :any:`KeyError` is raised
+        """
+        return super().pop(self.format_lookup_name(key), *args)
+
     def __hash__(self):
         return hash(tuple(self.keys()))
 
